@@ -438,8 +438,113 @@ pub fn run(cfg: &RunCfg) -> Report {
         names.extend(KEYWORDS.iter().take(12).map(|k| format!("{k}-x")));
         use_sites(&names, &mut rep);
         import_sites(&mut rep);
+        scan_names(cfg, &mut rep);
     }
     rep
+}
+
+/// The lexer's name scanners (`type_reference`, `identifier`, `value_reference`, through the hook `scan_name`) against
+/// the Lean model `Lexer/Names`, and against X.680 §12: a name followed by something that cannot continue it is taken
+/// whole; nothing that is not a name of the kind asked for is taken.
+fn scan_names(cfg: &RunCfg, rep: &mut Report) {
+    let mut rng = Rng::new(cfg.seed ^ 0xC16_5CA);
+    let stoppers = ["", " ", " ::= INTEGER", "::=", ",", "}", "{", "(1)", ".&Type", "-", "- x", "--c\nd", "-\n", "_x", "é", "\u{2d}\u{2d}", "\t", "\r\n", ";", "<", "-é", "-_", "/*c*/", ":"];
+    let keywords = ["SEQUENCE", "BIT", "CHARACTER", "CONTAINING", "ABSTRACT-SYNTAX", "TYPE-IDENTIFIER", "INTEGER", "END", "BEGIN", "ANY", "BY", "DEFINED", "MACRO", "TAGS", "FROM", "IMPORTS", "DATE-TIME", "OID-IRI", "PLUS-INFINITY", "MINUS-INFINITY", "NOT-A-NUMBER", "TIME-OF-DAY", "RELATIVE-OID-IRI"];
+    let mut inputs: Vec<(u8, String, Option<(String, bool)>)> = Vec::new(); // (kind, text, Some((name, keyword)) when the text is name ++ stopper)
+    let seg = |rng: &mut Rng| -> String {
+        let n = 1 + rng.below(5);
+        (0..n).map(|_| *rng.pick(&['a', 'b', 'z', 'A', 'Q', 'Z', '0', '7', '9', 'k', 'M'])).collect()
+    };
+    let n = cfg.budget(1500, 30000);
+    for k in 0..n {
+        let kind = (k % 3) as u8;
+        let mut name = String::new();
+        let first_upper = match kind { 0 => true, 2 => false, _ => rng.chance(1, 2) };
+        name.push(if first_upper { *rng.pick(&['A', 'T', 'Z', 'M']) } else { *rng.pick(&['a', 't', 'z', 'm']) });
+        if rng.chance(3, 4) {
+            name.push_str(&seg(&mut rng));
+        }
+        for _ in 0..rng.below(4) {
+            name.push('-');
+            name.push_str(&seg(&mut rng));
+        }
+        if (k / 3) % 9 == 8 {
+            name = rng.pick(&keywords).to_string();
+            if rng.chance(1, 3) {
+                name.push_str(["x", "-2", "S"][rng.below(3)]);
+            }
+        }
+        let st = stoppers[(k / 3 + k / 7) % stoppers.len()];
+        let is_kw = keywords.contains(&name.as_str());
+        let kind_ok = match kind { 0 => name.starts_with(|c: char| c.is_ascii_uppercase()), 2 => name.starts_with(|c: char| c.is_ascii_lowercase()), _ => true };
+        inputs.push((kind, format!("{name}{st}"), if kind_ok { Some((name.clone(), is_kw)) } else { None }));
+        // malformed neighbours of the same name
+        match (k / 3) % 7 {
+            0 => inputs.push((kind, format!("{name}-"), None)),
+            1 => inputs.push((kind, format!("{name}--{name}"), None)),
+            2 => inputs.push((kind, format!("1{name}"), None)),
+            3 => inputs.push((kind, format!("-{name}"), None)),
+            4 => inputs.push((kind, format!("é{name}"), None)),
+            5 => inputs.push(((kind + 1) % 3, format!("{name}{st}"), None)),
+            _ => inputs.push((kind, format!("{}{st}", name.to_lowercase()), None)),
+        }
+    }
+    for kw in keywords {
+        inputs.push((0, kw.to_string(), Some((kw.to_string(), true))));
+        inputs.push((0, format!("{kw} "), Some((kw.to_string(), true))));
+        inputs.push((0, format!("{kw}-"), None));
+    }
+    inputs.push((0, String::new(), None));
+    inputs.push((1, String::new(), None));
+    inputs.push((2, "-".into(), None));
+    let reqs: Vec<String> = inputs.iter().map(|(k, t, _)| format!("scanname {k} {}", hex(t))).collect();
+    let answers = match run_driver(&reqs) {
+        Ok(a) => a,
+        Err(e) => {
+            rep.harness_errors.push(e);
+            return;
+        }
+    };
+    for ((kind, text, want), ans) in inputs.iter().zip(answers.iter()) {
+        rep.evaluations += 1;
+        let t2 = text.clone();
+        let k2 = *kind;
+        let real = match std::panic::catch_unwind(move || rasn_compiler::verif_hooks::scan_name(k2, &t2)) {
+            Ok(r) => r,
+            Err(_) => {
+                rep.unsat("", false, json!({"why": "the name scanner panics", "case": {"role": "scan-name", "kind": kind, "text": text}}));
+                continue;
+            }
+        };
+        let real_s = match &real {
+            Some((n, used)) => format!("{} {used}", hex(n)),
+            None => "none".into(),
+        };
+        rep.count(&format!("scan-name:kind{kind}:{}", if real.is_some() { "taken" } else { "refused" }));
+        let agree = &real_s == ans;
+        if !agree {
+            rep.disagree(json!({"case": {"role": "scan-name", "kind": kind, "text": text}, "model": ans, "implementation": real_s, "model_of": "Lexer.Names (type_reference / identifier / value_reference)"}));
+        }
+        if let Some((name, is_kw)) = want {
+            // whether the stopper really stops is decided by the text itself: the next character is no letter / digit, and
+            // no hyphen leading on to one
+            let rest = &text[name.len()..];
+            let mut rc = rest.chars();
+            let stops = match rc.next() {
+                None => true,
+                Some(c) if c.is_ascii_alphanumeric() => false,
+                Some('-') => !rc.next().map(|d| d.is_ascii_alphanumeric()).unwrap_or(false),
+                Some(_) => true,
+            };
+            if !stops {
+                continue;
+            }
+            let expect = if *kind == 0 && *is_kw { "none".to_string() } else { format!("{} {}", hex(name), name.len()) };
+            if real_s != expect {
+                rep.unsat("", agree, json!({"why": format!("X.680 12.2-12.4: the name `{name}` stands at the start of the text and is followed by something that cannot continue it; the scanner answers {real_s}"), "case": {"role": "scan-name", "kind": kind, "text": text}}));
+            }
+        }
+    }
 }
 
 /// an imported type is named in the `use` line of the importing module exactly as its item is spelled
